@@ -1,7 +1,61 @@
-/- placeholder driver for C16: replaced when the model is built -/
+/-
+  Driver for C16: a predefined site network (topology regenerated from the working tree), capacities
+  and a schedule in; the model's limits, feasibility, aggregate-current magnitudes, per-transformer
+  current sums / power / bound, pod and panel sums out.
+  request : {"site":"caltech"|"jpl"|"office001", "caps":[bits…], "vt":bits, "rt":bits,
+             "S":[[bits…]…]  (one row per station, one column per period)}
+-/
 import AcnModel.Wire
-open Lean Acn.Wire
+import AcnModel.Sites
+open Lean Acn Acn.Wire Acn.Sites Acn.Gen.Sites
 
-def handle (_ : Json) : Except String Json := throw "driver for C16 not built yet"
+def r3 : Float := Float.sqrt 3
+
+def errName : SiteErr → String
+  | .capCount => "capCount"
+  | .badAngle j => s!"badAngle:{j}"
+  | .unknownLimit i => s!"unknownLimit:{i}"
+  | .shape => "shape"
+
+def perPeriod (S : List (List Float)) (f : List Float → Float) : List Float :=
+  (List.range (Feas.periods S)).map fun t => f (period S t)
+
+def handle (j : Json) : Except String Json := do
+  let site ← getStr j "site"
+  let caps ← getFs j "caps"
+  let vt ← getF j "vt"
+  let rt ← getF j "rt"
+  let S ← getFss j "S"
+  match topos.find? (fun T => T.site == site) with
+  | none => throw s!"unknown site {site}"
+  | some T =>
+    let static : List (String × Json) :=
+      [("structure_ok", jB (topoOk T)), ("stations", jList jS T.stations), ("names", jList jS T.conNames),
+       ("angles", jList (fun (a : Int × Nat) => Json.arr #[jI a.1, jN a.2]) T.angles)]
+    match siteNet T r3 caps with
+    | .error e => pure (Json.mkObj (("err", jS (errName e)) :: static))
+    | .ok N =>
+      if S.length ≠ nStations T then
+        pure (Json.mkObj (("err", jS "shape") :: static))
+      else
+        let feas := feasible T r3 vt rt caps S
+        let mags := (List.range T.rows.length).map fun i =>
+          perPeriod S fun x => Float.sqrt (aggSq T r3 caps i x)
+        let bounds := (List.range T.rows.length).map fun i => boundOf T r3 vt rt caps i
+        let xf := T.xfmrs.map fun x =>
+          let cap : Float := match xfmrCap T x with
+            | some (k, _) => caps.getD k 0
+            | none => 0
+          Json.mkObj [("name", jS x.name), ("cap", jF cap),
+            ("sum", jFs (perPeriod S fun v => groupSum x.sec.evses v)),
+            ("powerW", jFs (perPeriod S fun v => 120 * r3 * groupSum x.sec.evses v)),
+            ("boundW", jF (360 * boundOf T r3 vt rt caps x.sec.a)),
+            ("evses", jList jN x.sec.evses)]
+        let pods := T.pods.map fun p =>
+          Json.mkObj [("name", jS p.name), ("sum", jFs (perPeriod S fun v => groupSum p.evses v)),
+            ("bound", jF (boundOf T r3 vt rt caps p.row))]
+        pure (Json.mkObj ([("err", Json.null), ("feasible", jB feas), ("limits", jFs N.lims),
+          ("bounds", jFs bounds), ("mags", jFss mags), ("xfmrs", Json.arr xf.toArray),
+          ("pods", Json.arr pods.toArray)] ++ static))
 
 def main : IO Unit := runDriver handle
